@@ -199,9 +199,13 @@ type emitFn func(scheduler.State)
 func (f emitFn) Emit(s scheduler.State) { f(s) }
 
 // jobErr is the identity-carrying error returned by a failing job.
-type jobErr struct{ s, j int }
+type jobErr struct {
+	s, j  int
+	wraps error // a context error of the job's own making (private timeout), or nil
+}
 
 func (e *jobErr) Error() string { return fmt.Sprintf("job s%d/j%d failed", e.s, e.j) }
+func (e *jobErr) Unwrap() error { return e.wraps }
 
 func (r *runner) body(si, ji int) func(context.Context) error {
 	sr := r.res.SR[si]
@@ -400,7 +404,14 @@ func Exec(t *testing.T, d *Desc, replay bool, keepTrace bool, states map[uint64]
 		sr := &schedRun{d: sd, limit: d.Limit(sd), token: new(int), states: make([]stateRep, 4096),
 			jdone: make([]<-chan struct{}, len(sd.Jobs)), jcancel: make([]context.CancelFunc, len(sd.Jobs))}
 		for j := range sd.Jobs {
-			sr.errs = append(sr.errs, &jobErr{i, j})
+			je := &jobErr{s: i, j: j}
+			switch sd.Jobs[j].ErrWrap {
+			case 1:
+				je.wraps = context.DeadlineExceeded
+			case 2:
+				je.wraps = context.Canceled
+			}
+			sr.errs = append(sr.errs, je)
 		}
 		njobs += len(sd.Jobs)
 		if sd.Emitter && sd.FreqSteps > maxFreq {
